@@ -2,7 +2,7 @@
 
 `detect` variants break a property while still compiling: the named check must exit 1 on them.
 `silent` variants are behaviour-preserving rewrites: the named check must stay exit 0 (no false alarm).
-Variants live in tools/mutants.py as (id, property, expect, file, old, new[, count]).  Each is applied to a scratch copy of
+Variants live in tools/mutants.py as (id, property, expect, file, old, new[, count[, (old2, new2), ...]]).  Each is applied to a scratch copy of
 /repo/src + /repo/crates outside /repo, /verif and /tmp, the check is run with VERIF_REPO pointing there, the copy is removed.
 
 usage: python3 tools/selftest.py [property ids or variant ids ...]     -> /verif/selftest/RESULTS.json
@@ -34,7 +34,12 @@ def run_one(mu):
         s = open(p).read()
         if s.count(old) < 1 or (count and s.count(old) != count):
             return mid, pid, expect, "stale", f"`{old[:40]}` occurs {s.count(old)} times in {rel}"
-        open(p, "w").write(s.replace(old, new))
+        s = s.replace(old, new)
+        for o2, n2 in mu[7:]:            # further (old, new) replacements in the same file
+            if s.count(o2) != 1:
+                return mid, pid, expect, "stale", f"`{o2[:40]}` occurs {s.count(o2)} times in {rel}"
+            s = s.replace(o2, n2)
+        open(p, "w").write(s)
         if p.endswith(".py"):
             try:
                 py_compile.compile(p, doraise=True, cfile=f"{work}/x.pyc")
